@@ -1241,13 +1241,20 @@ def d5_numbered(ctx, idx):
             raise AnalysisError('generate_variable_list: expected one application of the numbered-variable pattern')
         use = uses[0]
         rx_def = [v for v in lib.assigned_value(fn, use.func.value.id)]
-        r.check(len(rx_def) == 1 and X.m("numbered_vars_regexp(self.config['numbered_vars'])", rx_def[0]) is not None,
-                "generate_variable_list: the pattern is built from config['numbered_vars']", short(rx_def[0]) if rx_def else '',
-                'the pattern is built from `%s`' % (short(rx_def[0]) if rx_def else '?'), lib.loc(fi, use))
+        construct = "generate_variable_list: the pattern is built from config['numbered_vars']"
+        rx_src = lib.inline_locals(rx_def[0], fn) if len(rx_def) == 1 else None
+        if rx_src is not None and X.m("numbered_vars_regexp(self.config['numbered_vars'])", rx_src) is not None:
+            r.ok(construct, short(rx_def[0]), lib.loc(fi, use))
+        elif rx_src is not None and isinstance(rx_src, ast.Call) and len(rx_src.args) == 1 and nf.config_key(rx_src.args[0]) not in (None, 'numbered_vars'):
+            r.violation(construct, "the pattern is built from config['%s'] instead of config['numbered_vars']" % nf.config_key(rx_src.args[0]),
+                        lib.loc(fi, use))
+        else:
+            r.undecided(construct, 'argument of numbered_vars_regexp not recognised: %s' % (short(rx_src) if rx_src is not None else '?'), lib.loc(fi, use))
         loop = X.enclosing_loop(use)
         if not (isinstance(loop, ast.For) and isinstance(loop.target, ast.Name) and len(use.args) == 1
                 and X.is_name(use.args[0], loop.target.id) and isinstance(loop.iter, ast.Name)):
-            raise AnalysisError('generate_variable_list: the pattern is not applied to the elements of a loop over names')
+            _numbered_streams(r, fi, use, VL, SF)
+            return
         # which names are tried
         construct = 'generate_variable_list: only names that are not declared variables are tried'
         bdef = one_def(loop.iter.id)
@@ -1332,6 +1339,149 @@ def d5_numbered(ctx, idx):
                 probs.append('the sampler is looked up under `%s` instead of the head of this instance' % short(vb['_H']))
             r.check(not probs, construct, short(stores[0][0]), '; '.join(probs), lib.loc(fi, stores[0][0]),
                     expected='%s[%s] = %s[%s]' % (SF, G1, SF, G2))
+
+
+def _numbered_streams(r, fi, use, VL, SF):
+    """generate_variable_list written with comprehensions: names -> matches -> (full name, head) pairs -> consumers.
+    Roles are decided per consumer from the tuple its own target binds (position 0 = group 1 = full name, position 1 =
+    group 2 = head); a name that the consumer does not bind is a stale variable of an earlier loop."""
+    fn = fi.node
+    env = lib.local_env(fn)
+    RX = use.func.value.id
+
+    def deref(e, depth=0):
+        while isinstance(e, ast.Name) and e.id in env and depth < 6:
+            e, depth = env[e.id], depth + 1
+        return e
+
+    def names_kind(e, depth=0):
+        """'undeclared' / 'all' / None for the collection of candidate names."""
+        e = deref(e)
+        if depth > 6:
+            return None
+        if isinstance(e, ast.Call) and isinstance(e.func, ast.Name) and e.func.id in ('sorted', 'set', 'list', 'tuple', 'frozenset') and len(e.args) == 1:
+            return names_kind(e.args[0], depth + 1)
+        if _is_all_used(fn, e):
+            return 'all'
+        b = X.any_match(["_U.difference(_D)", "_U - _D"], e)
+        if b is not None and names_kind(b['_U'], depth + 1) in ('all', 'undeclared'):
+            d = deref(b['_D'])
+            d = d.args[0] if (isinstance(d, ast.Call) and isinstance(d.func, ast.Name) and d.func.id in ('set', 'list', 'frozenset') and len(d.args) == 1) else d
+            if X.is_name(b['_D'], VL) or X.is_name(d, VL) or lib.is_config(d, 'variables') or (
+                    X.copy_source(d) is not None and lib.is_config(X.copy_source(d), 'variables')):
+                return 'undeclared'
+            return None
+        if isinstance(e, (ast.GeneratorExp, ast.ListComp, ast.SetComp)) and len(e.generators) == 1 and isinstance(e.generators[0].target, ast.Name):
+            g = e.generators[0]
+            base = names_kind(g.iter, depth + 1)
+            if base is None or not X.is_name(e.elt, g.target.id):
+                return None
+            tests = [nf.canon(t) for t in g.ifs]
+            if not tests:
+                return base
+            if len(tests) == 1 and X.any_match(["%s not in %s" % (g.target.id, VL), "%s not in self.config['variables']" % g.target.id], tests[0]) is not None:
+                return 'undeclared'
+            return None
+        return None
+
+    # the comprehension that applies the pattern
+    comp = parent(use)
+    while comp is not None and not isinstance(comp, (ast.GeneratorExp, ast.ListComp, ast.SetComp, ast.stmt)):
+        comp = parent(comp)
+    if not isinstance(comp, (ast.GeneratorExp, ast.ListComp, ast.SetComp)) or len(comp.generators) != 1 \
+            or not isinstance(comp.generators[0].target, ast.Name) or len(use.args) != 1 or not X.is_name(use.args[0], comp.generators[0].target.id):
+        raise AnalysisError('generate_variable_list: the pattern is not applied to the elements of a loop / comprehension over names')
+    construct = 'generate_variable_list: only names that are not declared variables are tried'
+    kind = names_kind(comp.generators[0].iter)
+    if kind == 'undeclared' or (kind == 'all' and any(X.any_match(["%s not in %s" % (comp.generators[0].target.id, VL)], nf.canon(t)) is not None
+                                                        for t in comp.generators[0].ifs)):
+        r.ok(construct, short(comp.generators[0].iter, 80), lib.loc(fi, comp))
+    elif kind == 'all':
+        r.violation(construct, 'the pattern is tried on every used name (`%s`), including declared variables: a declared `b_{7}` is appended a '
+                    'second time and its own sampler is replaced by the sampler of `b`' % short(comp.generators[0].iter), lib.loc(fi, comp),
+                    expected='names not in the variable list')
+    else:
+        r.undecided(construct, 'candidate names not recognised: %s' % short(comp.generators[0].iter), lib.loc(fi, comp))
+    # pairs = M.groups() for M in matches if M
+    matches_names = {n for n, v in env.items() if v is comp}
+    pair_comps = []
+    if X.m("%s.%s(_C).groups()" % (RX, use.func.attr), comp.elt) is not None:
+        guarded = any(nf.equal(nf.canon(t), nf.canon(use)) or X.truth_test(t, '__none__') for t in comp.generators[0].ifs)
+        pair_comps.append((comp, any(isinstance(c_, ast.Call) and nf.equal(c_, use) for t in comp.generators[0].ifs for c_ in ast.walk(t))))
+    for c2 in [n for n in walk_own(fn) if isinstance(n, (ast.GeneratorExp, ast.ListComp, ast.SetComp)) and n is not comp]:
+        if len(c2.generators) == 1 and isinstance(c2.generators[0].target, ast.Name) and (
+                (isinstance(c2.generators[0].iter, ast.Name) and c2.generators[0].iter.id in matches_names) or c2.generators[0].iter is comp):
+            m_ = c2.generators[0].target.id
+            if X.m("%s.groups()" % m_, c2.elt) is not None:
+                pair_comps.append((c2, any(X.truth_test(t, m_) > 0 for t in c2.generators[0].ifs)))
+    construct = 'generate_variable_list: groups are read only when the name matched'
+    if len(pair_comps) != 1:
+        raise AnalysisError('generate_variable_list: the (full name, head) pairs are not produced by one recognised comprehension')
+    pc, guarded = pair_comps[0]
+    r.check(guarded, construct, 'the comprehension keeps only successful matches',
+            'match.groups() is evaluated for every candidate, also where the pattern did not match (AttributeError on None for ordinary '
+            'undeclared names)', lib.loc(fi, pc))
+    pair_names = {n for n, v in env.items() if v is pc}
+    # consumers of the pairs
+    appended, stored = [], []           # (expr for the appended name, binder), (key expr, value expr, binder)
+    for node in walk_own(fn):
+        it = tgt = None
+        if isinstance(node, ast.For):
+            it, tgt = node.iter, node.target
+        elif isinstance(node, (ast.GeneratorExp, ast.ListComp, ast.SetComp, ast.DictComp)) and len(node.generators) == 1:
+            it, tgt = node.generators[0].iter, node.generators[0].target
+        if it is None or not ((isinstance(it, ast.Name) and it.id in pair_names) or it is pc):
+            continue
+        if not (isinstance(tgt, ast.Tuple) and len(tgt.elts) == 2 and all(isinstance(t, ast.Name) for t in tgt.elts)):
+            raise AnalysisError('consumer of the (full name, head) pairs does not unpack them: %s' % short(tgt))
+        g1, g2 = tgt.elts[0].id, tgt.elts[1].id
+        if isinstance(node, ast.For):
+            for st_, b_ in X.find_stmts(node, "%s.append(_A)" % VL, own=False):
+                appended.append((b_['_A'], (g1, g2), st_))
+            for st_, b_ in X.find_stmts(node, "%s[_K] = _V" % SF, own=False):
+                stored.append((b_['_K'], b_['_V'], (g1, g2), st_))
+        else:
+            user = parent(node)
+            if isinstance(node, ast.DictComp) and isinstance(user, ast.Call) and X.m("%s.update(__)" % SF, user) is not None:
+                stored.append((node.key, node.value, (g1, g2), node))
+            elif isinstance(user, ast.Call) and isinstance(user.func, ast.Attribute) and user.func.attr == 'extend' and X.is_name(user.func.value, VL):
+                appended.append((node.elt, (g1, g2), node))
+            elif isinstance(user, ast.AugAssign) and X.is_name(user.target, VL):
+                appended.append((node.elt, (g1, g2), node))
+            else:
+                raise AnalysisError('consumer of the pairs not recognised: %s' % short(user))
+    construct = 'generate_variable_list: the full name (group 1) is added to the variable list'
+    if not appended:
+        X.absent(r, construct, 'nothing is appended to the variable list: numbered instances get no sample', fi.loc, understood=False)
+    for a, (g1, g2), where_ in appended:
+        if X.is_name(a, g1):
+            r.ok(construct, short(where_, 70), lib.loc(fi, where_))
+        elif X.is_name(a, g2):
+            r.violation(construct, 'group 2 (the head, e.g. `b`) is appended instead of group 1 (the full name, e.g. `b_{3}`)', lib.loc(fi, where_))
+        else:
+            r.undecided(construct, 'appended value not recognised: %s' % short(a), lib.loc(fi, where_))
+    construct = "generate_variable_list: the instance is sampled from its head's sampling set"
+    if not stored:
+        X.absent(r, construct, 'no sampler is registered for the numbered instance', fi.loc, understood=False)
+    for k, v, (g1, g2), where_ in stored:
+        probs = []
+        if X.is_name(k, g2):
+            probs.append('the sampler is stored under the head `%s` instead of the full name' % g2)
+        elif not X.is_name(k, g1):
+            raise AnalysisError('key of the sampler store not recognised: %s' % short(k))
+        vb = X.any_match(["%s[_H]" % SF, "self.config['sample_from'][_H]"], v)
+        if vb is None:
+            raise AnalysisError('sampler value not recognised: %s' % short(v))
+        h = vb['_H']
+        if X.is_name(h, g1):
+            probs.append('the sampler is looked up under the full name (group 1), which has none, instead of the head (group 2)')
+        elif isinstance(h, ast.Name) and h.id != g2:
+            probs.append("the sampler is looked up with `%s`, a name that this %s does not bind (its own head is `%s`): it is the variable "
+                         "left over from an earlier loop, i.e. the head of the LAST instance, so every numbered instance gets that head's "
+                         "sampling set" % (h.id, 'comprehension' if not isinstance(where_, ast.stmt) else 'loop', g2))
+        elif not X.is_name(h, g2):
+            raise AnalysisError('sampler lookup not recognised: %s' % short(h))
+        r.check(not probs, construct, short(where_, 80), '; '.join(probs), lib.loc(fi, where_), expected='%s[full] = %s[head]' % (SF, SF))
 
 
 def _is_all_used(fn, e, depth=0):
@@ -1657,7 +1807,25 @@ def d7_samplers(ctx, idx):
 
 
 # ------------------------------------------------------------------------ self-test
+_W5_HELPER = ("def validate_no_collisions(config, keys):",
+              "def find_numbered_vars(candidates, numbered_vars):\n    regexp = numbered_vars_regexp(numbered_vars)\n"
+              "    matches = (regexp.match(candidate) for candidate in sorted(candidates))\n"
+              "    return [match.groups() for match in matches if match]\n\ndef validate_no_collisions(config, keys):")
+_W5_OLD = ("        bad_vars = set(var for var in vars_used if var not in variable_list)\n        \n"
+           "        # Check to see if any unassigned variables are numbered_vars\n"
+           "        regexp = numbered_vars_regexp(self.config['numbered_vars'])\n"
+           "        for var in bad_vars:\n            match = regexp.match(var)  # Returns None if no match\n            if match:\n"
+           "                # This variable is a numbered_variable\n                # Go and add it to variable_list with the appropriate sampler\n"
+           "                (full_string, head) = match.groups()\n                variable_list.append(full_string)\n"
+           "                sample_from_dict[full_string] = sample_from_dict[head]\n")
+_W5_NEW = ("        unassigned = set(vars_used).difference(variable_list)\n"
+           "        numbered = find_numbered_vars(unassigned, self.config['numbered_vars'])\n"
+           "        for full_string, head in numbered:\n            variable_list.append(full_string)\n"
+           "        sample_from_dict.update({\n            full_string: sample_from_dict[head] for full_string, %s in numbered\n        })\n")
+
+
 MUTANTS = [
+    Mutant('numbered-pairs-stale-head', MH, [_W5_HELPER, (_W5_OLD, _W5_NEW % '_')], None, 'D5'),
     Mutant('circular-raise-removed', SAMPLING, "                bad_symbols = \", \".join(sorted(unevaluated_dependents.keys()))\n                raise ConfigError(\"Circularly dependent DependentSamplers detected: \" +\n                                  bad_symbols)\n",
            "                bad_symbols = \", \".join(sorted(unevaluated_dependents.keys()))\n", 'D1'),
     Mutant('circular-breaks-out', SAMPLING, "                raise ConfigError(\"Circularly dependent DependentSamplers detected: \" +\n                                  bad_symbols)\n",
@@ -1716,6 +1884,7 @@ MUTANTS = [
 ]
 
 BENIGN = [
+    Benign('numbered-pairs-by-comprehension', MH, [_W5_HELPER, (_W5_OLD, _W5_NEW % 'head')], None),
     Benign('progress-flag-snapshot', SAMPLING, "            if not progress_made:\n", "            made_progress = progress_made\n            if not made_progress:\n"),
     Benign('evaluator-called-positionally', SAMPLING, "            result, _ = evaluator(formula=self.config['formula'],\n                                  variables=sample_dict,\n                                  functions=functions,\n                                  suffixes=suffixes)",
            "            formula = self.config['formula']\n            result, _ = evaluator(formula, sample_dict, functions, suffixes)"),
